@@ -98,7 +98,10 @@ StepSub(v, e, args, called) ==
          [] w.k = "mapi" -> IF e.k = "int" THEN Settle(KeyOf(w, e), args, called) ELSE Empty
          [] OTHER -> Error
 
-\* steps: [t |-> "name", s] | [t |-> "idx", n] | [t |-> "sub", e] ; each may carry call arguments: call |-> TRUE, args
+\* steps: [t |-> "name", s] | [t |-> "idx", n] | [t |-> "sub", e] | [t |-> "subp", p] ; each may carry call arguments: call |-> TRUE, args
+\* "subp": the subscript is itself a name  a[b.c(1)]  - p = [val, rootArgs, rootCall, steps] with val the value of its first part.
+\* It is resolved first: if that is an error the whole name is an error (whatever kind of value is being subscripted); the empty
+\* value subscripts like nil.
 RECURSIVE Walk(_, _, _)
 Walk(v, steps, i) ==
   IF i > Len(steps) THEN Val(v)
@@ -106,6 +109,11 @@ Walk(v, steps, i) ==
        LET r == CASE st.t = "name" -> StepName(v, st.s, st.args, st.call)
                   [] st.t = "idx" -> StepIdx(v, st.n, st.args, st.call)
                   [] st.t = "sub" -> StepSub(v, st.e, st.args, st.call)
+                  [] st.t = "subp" ->
+                       LET r0 == Settle(st.p.val, st.p.rootArgs, st.p.rootCall) IN
+                       LET inner == IF r0.res # "val" THEN r0 ELSE Walk(r0.v, st.p.steps, 1) IN
+                       IF inner.res = "error" THEN Error
+                       ELSE StepSub(v, IF inner.res = "empty" THEN Nil ELSE inner.v, st.args, st.call)
        IN IF r.res # "val" THEN r ELSE Walk(r.v, steps, i + 1)
 
 \* Lookup: tag-set names shadow the caller's context, which shadows the globals
